@@ -16,6 +16,15 @@ STUBS = {
     "internal/util random source": "hash(seed, counter) through the verif random seam",
 }
 
+CL_RULE = ("plans on a cluster client (NewClient against a simulated Redis Cluster of 2-4 shards with 0-2 replicas each, slot ranges cut at seeded points incl. "
+           "slots 0, 1, 8192, 16383, single-slot ranges and unserved gaps; nodes answer CLUSTER SLOTS (6.x/7.x) or CLUSTER SHARDS (8.x) from their own, possibly stale, view; "
+           "replicas with unknown ('?'), empty or NULL endpoints and fail/loading health; 1-3 InitAddress entries, PreferInitAddressRefresh, periodic refresh; SendToReplicas "
+           "predicates, ReplicaOnly, replica/read-node selectors returning 0, last, slot-dependent, out-of-range and negative indices; MaxMovedRedirections 0-3; DisableRetry and "
+           "logged RetryDelay functions): 2-6 tasks issuing keyed reads/writes with attributable replies through Do, DoMulti (2-8 commands over any slots), single-slot batches "
+           "with a MULTI...EXEC block, DoCache, DoMultiCache and the multi-key helpers; variants: stable (no change, all views equal), change (slot moves, migrations with ASK, "
+           "cancelled migrations, fail-overs with and without outage, stale bystanders, CLUSTERDOWN windows, LOADING nodes), faults (additionally resets, EOFs, lost replies, "
+           "write errors, node restarts). ")
+
 CHECKS = {
     "C01": {
         "level": "exploration",
@@ -34,6 +43,79 @@ CHECKS = {
             "fakeredis and the VTAG reply generator are correct (replies are a pure function of argv, so attribution is by construction)",
             "ring configurations that can fill while the write buffer is small are excluded here (known finding under C02)",
             "runs whose plan contains deadlines or cancellations tolerate connection-level errors on other calls; plans without them do not",
+        ],
+    },
+    "C19": {
+        "level": "exploration",
+        "rule": CL_RULE + ("oracle: (stable plans) right after the first refresh the in-package slot table maps every slot of a listed shard to that shard's primary and every other slot "
+                 "to nothing; the first attempt of every keyed command arrives at the primary of its slot (or, when the caller opted in, a node of that shard) and nothing is "
+                 "re-sent; (all plans, judged fault-free) an attempt that was answered MOVED/ASK is followed by an attempt at exactly the named node, after ASK with ASKING in front "
+                 "of it on that connection (in front of MULTI for a block); a redirect is returned to the caller only when MaxMovedRedirections is exhausted, and never more than "
+                 "that many are followed; the value returned is what the last node asked answered. non-trivial = at least one call judged; distinct = distinct event-log hash"),
+        "parts": [
+            {"module": "rueidis", "scenario": "cluster", "quick": 1200, "thorough": 150000},
+            {"module": "rueidis", "scenario": "cluster", "variant": "stable", "quick": 800, "thorough": 100000},
+            {"module": "rueidis", "scenario": "cluster", "variant": "change", "quick": 800, "thorough": 100000},
+        ],
+        "expected_probes": ["redirect-replies-sent", "ask-redirect", "stable-topology", "changing-topology", "unlisted-or-endpointless-node", "redirect-limit-reached"],
+        "components": {"real": REAL, "stubs": STUBS},
+        "assumptions": [
+            "keyed commands only (slot-less commands are routed by Go map iteration order, which cannot be seeded)",
+            "all nodes share one host; a MOVED/ASK naming a node with an empty host (':7004') is not generated: rueidis dials ':7004' literally (noted in DESIGN.md, outside this property's text)",
+            "a read the caller sent to a replica may be bounced to the primary once (a replica connection opened as InitAddress never sent READONLY): not counted as a re-send",
+            "malformed topology replies (wrong types, short arrays) are not generated: that clause is a pure function of the reply and is left to input fuzzing",
+            "a primary that never comes back is not generated (DoMulti keeps retrying read-only commands against its dead address; no listed property covers that)",
+        ],
+    },
+    "C20": {
+        "level": "exploration",
+        "rule": CL_RULE + ("oracle: DoMulti / DoMultiCache return exactly one result per command; result i is the reply to command i (replies carry the command's unique id; inside an opened "
+                 "MULTI...EXEC block: OK, QUEUED..., and EXEC's array of the block's replies in order); every arrival of a command of a MULTI...EXEC block at any node - first "
+                 "attempt, after MOVED, after ASK - happens inside a complete contiguous copy [ASKING] MULTI c1..cn EXEC of the block on one connection. "
+                 "non-trivial = at least one call judged; distinct = distinct event-log hash"),
+        "parts": [
+            {"module": "rueidis", "scenario": "cluster", "quick": 1200, "thorough": 150000},
+            {"module": "rueidis", "scenario": "cluster", "variant": "change", "quick": 1000, "thorough": 100000},
+            {"module": "rueidis", "scenario": "cluster", "variant": "faults", "quick": 600, "thorough": 60000},
+        ],
+        "expected_probes": ["redirect-replies-sent", "ask-redirect", "changing-topology"],
+        "components": {"real": REAL, "stubs": STUBS},
+        "assumptions": [
+            "a block whose MULTI the server itself refused (LOADING, CLUSTERDOWN) is not a transaction and is not judged",
+            "a block cut by the loss of its connection is not judged for contiguity",
+            "batches that mix slot-less commands (MULTI/EXEC) with several slots are not generated: rueidis panics on them by design",
+        ],
+    },
+    "C21": {
+        "level": "exploration",
+        "rule": CL_RULE + ("oracle (cluster part): a command received by a node whose role is replica satisfies the SendToReplicas predicate of the plan (a pure function of the command) or the "
+                 "client is ReplicaOnly; with a selector that returns an index outside the candidates every command lands on the primary; with an in-range replica selector and a "
+                 "listed replica an opted-in command does not go to the primary; ReplicaOnly slot tables point at a listed replica of the shard when it has one. "
+                 "non-trivial = at least one call judged; distinct = distinct event-log hash"),
+        "parts": [
+            {"module": "rueidis", "scenario": "cluster", "variant": "replicas", "quick": 1500, "thorough": 150000},
+            {"module": "rueidis", "scenario": "cluster", "quick": 800, "thorough": 80000},
+        ],
+        "expected_probes": ["command-at-replica", "stable-topology"],
+        "components": {"real": REAL, "stubs": STUBS},
+        "assumptions": [
+            "after a fail-over the client may still believe that the demoted node is the primary: arrivals at replicas are not judged from the first fail-over of a run on",
+        ],
+    },
+    "C31": {
+        "level": "exploration",
+        "rule": CL_RULE + ("helper calls: MGet and MGetCache over 1-10 keys with duplicates spread over all shards, MDel over 1-7 keys with duplicates, MSet of one key (maps with several "
+                 "entries are sent in Go map order, which would make the run unrepeatable); oracle: the returned map has exactly the distinct input keys; each entry is the value the "
+                 "model stores for that key (stable plans: exactly; under topology change: that value or nil); a success reported by MDel/MSet is visible in the model (stable plans). "
+                 "non-trivial = at least one call judged; distinct = distinct event-log hash"),
+        "parts": [
+            {"module": "rueidis", "scenario": "cluster", "variant": "helpers", "quick": 1200, "thorough": 120000},
+            {"module": "rueidis", "scenario": "cluster", "quick": 800, "thorough": 80000},
+        ],
+        "expected_probes": ["stable-topology"],
+        "components": {"real": REAL, "stubs": STUBS},
+        "assumptions": [
+            "cluster client only so far; JsonMGet/JsonMSet/JsonMGetCache/MSetNX and multi-entry MSet maps are not exercised",
         ],
     },
     "C12": {
@@ -128,11 +210,13 @@ CHECKS = {
             {"module": "rueidis", "scenario": "at-most-once", "variant": "enum:eof-mid-reply", "quick": 1024, "thorough": 25600},
             {"module": "rueidis", "scenario": "at-most-once", "variant": "enum:werr", "quick": 1024, "thorough": 25600},
             {"module": "rueidis", "scenario": "at-most-once", "variant": "enum:slow", "quick": 1024, "thorough": 25600},
+            {"module": "rueidis", "scenario": "cluster", "variant": "faults", "quick": 800, "thorough": 80000},
+            {"module": "rueidis", "scenario": "cluster", "variant": "change", "quick": 500, "thorough": 50000},
         ],
         "expected_probes": ["executed-but-unanswered", "request-lost", "conn-lifetime-configured"],
         "components": {"real": REAL, "stubs": STUBS},
         "assumptions": [
-            "single-node client front-end only so far (standalone/sentinel/cluster front-ends share the pipe/mux layer but have their own retry loops)",
+            "single-node and cluster front-ends (cluster: a non-retryable write is executed at most once however it is redirected, retried or cut by faults); standalone and sentinel front-ends not yet",
             "bytes the client wrote before closing a connection are still delivered to the server (as TCP does), so a re-sent command can overtake its original",
         ],
     },
@@ -378,10 +462,12 @@ CHECKS = {
                  "non-trivial = a command was re-sent or the delay function was consulted; distinct = distinct event-log hash"),
         "parts": [
             {"module": "rueidis", "scenario": "retry-policy", "quick": 8000, "thorough": 600000},
+            {"module": "rueidis", "scenario": "cluster", "variant": "change", "quick": 1000, "thorough": 100000},
+            {"module": "rueidis", "scenario": "cluster", "variant": "faults", "quick": 600, "thorough": 60000},
         ],
         "expected_probes": ["command-sent-more-than-once", "retry-delay-said-stop", "loading-replies"],
         "components": {"real": REAL, "stubs": STUBS},
-        "assumptions": ["single-node client front-end only; the retry loops of the standalone, sentinel and cluster front-ends (TRYAGAIN / CLUSTERDOWN) are not exercised yet"],
+        "assumptions": ["single-node and cluster front-ends (cluster part: a command is re-sent after LOADING/TRYAGAIN/CLUSTERDOWN or a transport error only if it is read-only or retryable, never with DisableRetry, and at most as often as RetryDelay returned a non-negative delay for it); standalone and sentinel retry loops are not exercised yet"],
     },
     "C26": {
         "level": "exploration",
